@@ -636,3 +636,81 @@ Proof.
   change (is_child_key "id") with false. change (is_child_key "name") with false. change (is_child_key "type") with false.
   change (is_child_key "child_0") with true. cbn iota. cbn [bind]. destruct (foldM f d s); reflexivity.
 Qed.
+
+(* ---------------------------------------------------------------- present properties are in the layout *)
+
+Section Present.
+Variables (S : sdiagram) (c : sclass) (l : list slot).
+Hypothesis Hp : forall t it, class_item c t = Some it -> has_tag t l = true.
+
+Lemma c_stereo_present : forall K, has_tag TStereo l && existsb K (kinds_of S c) = existsb K (kinds_of S c).
+Proof.
+  intro K. unfold kinds_of. destruct (sc_stereos c) as [|i r] eqn:E; [apply andb_false_r|].
+  erewrite Hp; [reflexivity|]. cbn [class_item]. rewrite E. reflexivity.
+Qed.
+
+Lemma c_abstract_present : has_tag TAbstract l && sc_abstract c = sc_abstract c.
+Proof.
+  destruct (sc_abstract c) eqn:E; [|apply andb_false_r].
+  erewrite Hp; [reflexivity|]. cbn [class_item]. unfold flag_field. rewrite E. reflexivity.
+Qed.
+
+Lemma c_doc_present : (if has_tag TDoc l && negb (String.eqb (sc_doc c) "") then sc_doc c else "") = sc_doc c.
+Proof.
+  destruct (String.eqb (sc_doc c) "") eqn:E.
+  - apply String.eqb_eq in E. rewrite E. destruct (has_tag TDoc l); reflexivity.
+  - erewrite Hp; [reflexivity|]. cbn [class_item]. unfold text_field. rewrite E. reflexivity.
+Qed.
+End Present.
+
+(* ---------------------------------------------------------------- the class *)
+
+Definition c_flags0 : cflags :=
+  {| cf_pure := false; cf_autogen := false; cf_enum := false; cf_struct := false; cf_packed := false; cf_comment := ""; cf_literals := [] |}.
+
+Lemma build_class : goal_op -> goal_attr -> goal_class.
+Proof.
+  intros Gop Gattr S g P v c Hg Hc HP Hid Hnm.
+  pose proof Hc as Hc'. unfold class_ok in Hc'. c_split.
+  match goal with H : forallb (member_ok S) _ = true |- _ => rename H into Hmem end.
+  match goal with H : forallb (fun i => ident i && known S i) _ = true |- _ => rename H into Hst end.
+  match goal with H : layout_ok _ _ = true |- _ => destruct (c_layout_parts _ _ H) as [Hd [Hk [Hch [Hn Hp]]]] end.
+  unfold parse_class. rewrite HP. cbn [bind].
+  unfold tree_of_class. rewrite top_explicit.
+  rewrite body_explicit;
+    [|apply c_items_simple; [exact Hn|apply c_class_item_simple]|rewrite entry_keys_ws; exact Hk|rewrite entry_keys_ws; exact Hch].
+  rewrite (c_class_kids S c Hc).
+  rewrite !c_typed_children_eq, !c_over_top.
+  (* (2) operations *)
+  rewrite (c_typed_body _ g "operation" parse_operation (fun m => match m with MOp o => [rop_of S o] | _ => [] end) c (tabs 1) (sc_layout c) (sc_members c) Hn).
+  2:{ intros m Hm. rewrite forallb_forall in Hmem. specialize (Hmem m Hm). destruct m as [o|a|id nm noise]; cbn [c_mtype].
+      - change (String.eqb "operation" (Uml.lower "Operation")) with true. cbn iota.
+        exists (rop_of S o). split; [apply Gop; assumption|reflexivity].
+      - reflexivity.
+      - reflexivity. }
+  (* (3) attributes *)
+  rewrite (c_typed_body _ g "attribute" parse_attribute (fun m => match m with MAttr a => [rattr_of S a] | _ => [] end) c (tabs 1) (sc_layout c) (sc_members c) Hn).
+  2:{ intros m Hm. rewrite forallb_forall in Hmem. specialize (Hmem m Hm). destruct m as [o|a|id nm noise]; cbn [c_mtype].
+      - reflexivity.
+      - change (String.eqb "attribute" (Uml.lower "Attribute")) with true. cbn iota.
+        exists (rattr_of S a). split; [apply Gattr; assumption|reflexivity].
+      - reflexivity. }
+  (* (1) flags *)
+  fold c_flags0.
+  rewrite c_foldM_app, (c_flags_entries S g c (tabs 1) Hg Hst _ Hn). cbn [bind].
+  rewrite (c_flags_children S g _ Hmem). cbn [bind].
+  set (F := fold_left (c_slot S c) (sc_layout c) c_flags0).
+  unfold c_add_lits. cbn [cf_pure cf_autogen cf_enum cf_struct cf_packed cf_comment cf_literals].
+  unfold F.
+  rewrite (c_or_fold S c cf_pure _ _ (c_slot_pure S c)), (c_or_fold S c cf_autogen _ _ (c_slot_autogen S c)),
+          (c_or_fold S c cf_enum _ _ (c_slot_enum S c)), (c_or_fold S c cf_struct _ _ (c_slot_struct S c)),
+          (c_or_fold S c cf_packed _ _ (c_slot_packed S c)), c_slots_comment, c_slots_literals.
+  cbn [c_flags0 cf_pure cf_autogen cf_enum cf_struct cf_packed cf_comment cf_literals orb app].
+  rewrite !andb_false_r, !orb_false_r, !(c_stereo_present S c _ Hp), (c_abstract_present c _ Hp), (c_doc_present c _ Hp).
+  rewrite Hid, Hnm. unfold rclass0, set_ns, rclass_of.
+  cbn [rc_id rc_name rc_ns rc_pure rc_autogen rc_enum rc_struct rc_packed rc_comment rc_literals rc_ops rc_attrs].
+  rewrite (orb_comm (existsb (is_kind KIface) (kinds_of S c)) (sc_abstract c)).
+  reflexivity.
+Qed.
+
+Print Assumptions build_class.
